@@ -54,6 +54,7 @@ def q? : String → Option Q
   | "receiptByHash" => some .receiptByHash
   | "l1HandlerMsg" => some .l1HandlerMsg
   | "requireRetained" => some .requireRetained
+  | "eventsFrom" => some .eventsFrom
   | "stateAtNumber" => some .stateAtNumber
   | "stateAtHash" => some .stateAtHash
   | _ => none
